@@ -4,6 +4,7 @@ package c17
 
 import (
 	"fmt"
+	"strconv"
 	"strings"
 
 	"github.com/ctessum/geom"
@@ -111,6 +112,20 @@ func run(c *core.Ctx, idx int) {
 	}
 	if ok, why := gen.SameStructure(g, back); !ok {
 		c.Violate("parse-differs:"+name, fmt.Sprintf("text parses to a different geometry: %s", why), detail)
+		return
+	}
+	// shortest round-trip decimal form: no numeral carries more significant digits than needed
+	flat := gen.Flatten(g)
+	nums := numerals(s)
+	if len(nums) == 2*len(flat) {
+		for i, p := range flat {
+			for k, v := range []float64{p.X, p.Y} {
+				if got, want := sigDigits(nums[2*i+k]), sigDigits(strconv.FormatFloat(v, 'e', -1, 64)); got > want {
+					c.Violate("not-shortest-form", fmt.Sprintf("numeral %q has %d significant digits, the shortest form that parses to the same float64 needs %d", nums[2*i+k], got, want), detail)
+					return
+				}
+			}
+		}
 	}
 }
 
@@ -157,4 +172,44 @@ func has17(s string) bool {
 type aliasState struct {
 	prev     []byte
 	prevCopy string
+}
+
+// numerals extracts the numeric literals of a WKT text in order.
+func numerals(s string) []string {
+	var out []string
+	i := 0
+	for i < len(s) {
+		ch := s[i]
+		if (ch >= '0' && ch <= '9') || ch == '-' || ch == '+' || ch == '.' {
+			j := i
+			for j < len(s) && ((s[j] >= '0' && s[j] <= '9') || s[j] == '-' || s[j] == '+' || s[j] == '.' || s[j] == 'e' || s[j] == 'E') {
+				j++
+			}
+			out = append(out, s[i:j])
+			i = j
+			continue
+		}
+		i++
+	}
+	return out
+}
+
+// sigDigits counts the significant digits of a decimal literal (mantissa only,
+// leading and trailing zeros not counted).
+func sigDigits(lit string) int {
+	if k := strings.IndexAny(lit, "eE"); k >= 0 {
+		lit = lit[:k]
+	}
+	var d []byte
+	for i := 0; i < len(lit); i++ {
+		if lit[i] >= '0' && lit[i] <= '9' {
+			d = append(d, lit[i])
+		}
+	}
+	ds := strings.TrimLeft(string(d), "0")
+	ds = strings.TrimRight(ds, "0")
+	if ds == "" {
+		return 1
+	}
+	return len(ds)
 }
